@@ -947,7 +947,7 @@ def printfRest : M Unit := do
   let fmt ← currentStr
   if fmt.length == 0 then tokenError "Expected format specifier, got " ""
   skipToken
-  match Out.parseFormat fmt with
+  match Out.fieldHeads fmt.toList with
   | none => triggerError ("Bad format specifier \"" ++ fmt ++ "\": ")
   | some fields =>
     outRvalues (Out.countPositional fields)
